@@ -1,7 +1,7 @@
 import NasimModel.Model.Gen
 import NasimModel.Props.C02
 import NasimModel.Props.C04
-import NasimModel.Props.C16
+import NasimModel.Proofs.ReachFlat
 /-!
 # Solvability from structure
 
